@@ -271,12 +271,15 @@ int main(int argc, char** argv)
 #if WIDE_SET == 0
     wide_all<cnl::wide_integer<200>>(out, 1);
     wide_all<cnl::wide_integer<129, unsigned>>(out, 2);
+    wide_all<cnl::wide_integer<160>>(out, 10);                   // signed, digits an exact multiple of the limb width
 #elif WIDE_SET == 1
     wide_all<cnl::wide_integer<256, std::uint64_t>>(out, 3);
     wide_all<cnl::wide_integer<255, std::int16_t>>(out, 4);
+    wide_all<cnl::wide_integer<256, std::int32_t>>(out, 11);     // the same with 8 x 32-bit limbs
 #elif WIDE_SET == 2
     wide_all<cnl::wide_integer<500, std::int64_t>>(out, 5);
     wide_all<cnl::wide_integer<130, std::int8_t>>(out, 6);
+    wide_all<cnl::wide_integer<192, std::int64_t>>(out, 12);     // and 3 x 64-bit limbs
 #elif WIDE_SET == 3
     wide_all<cnl::wide_integer<1000>>(out, 7);
 #elif WIDE_SET == 4
